@@ -18,7 +18,24 @@ from .. import env, scen, simdev, tlc, transports, wire
 from ..framework import main
 
 TICK = 0.01
-OPS = ['connect', 'connect_auth', 'shell', 'streaming_shell', 'exec_out', 'stat', 'list', 'pull', 'pull_cb', 'push', 'reboot', 'root']
+OPS = ['connect', 'connect_auth', 'shell', 'streaming_shell', 'exec_out', 'stat', 'list', 'pull', 'pull_cb', 'push', 'push_dir', 'reboot', 'root']
+_DIR = {}
+
+
+def push_dir_source():
+    """A local directory with two files (made once per run of the check, removed at exit)."""
+    if 'p' not in _DIR:
+        import atexit
+        import os
+        import shutil
+        import tempfile
+        d = tempfile.mkdtemp(prefix='c11-', dir=tlc.WORK if os.path.isdir(tlc.WORK) else None)
+        for name, n in (('a.bin', 3000), ('b.bin', 10)):
+            with open(os.path.join(d, name), 'wb') as f:
+                f.write(scen.fast_pattern(len(name), n))
+        atexit.register(shutil.rmtree, d, True)
+        _DIR['p'] = d
+    return _DIR['p']
 
 
 def make_stall(kind, dev):
@@ -34,6 +51,20 @@ def make_stall(kind, dev):
         if kind == 'empty':
             core.clock.advance(tmo)
             return b''
+        if kind in ('trickle_huge', 'huge_then_empty'):
+            # a header that announces a payload of almost 2^31 / 2^32 bytes, then a trickle resp. end-of-stream
+            if 'hdr' not in state:
+                state['hdr'] = True
+                state['buf'] = wire.frame('WRTE', 0x7777, 0x7776, b'', length=(0x7FFFFF00, 0xFFFFFF00)[int(core.clock.time() * 1000) % 2], check=1) + b'\x00' * 4096
+            if len(state['buf']) > 4096:          # the header itself arrives promptly
+                out, state['buf'] = state['buf'][:min(n, len(state['buf']) - 4096)], state['buf'][min(n, len(state['buf']) - 4096):]
+                return out
+            if kind == 'huge_then_empty':
+                core.clock.advance(tmo)
+                return b''
+            core.clock.advance(tmo * 0.9)
+            out, state['buf'] = state['buf'][:1], state['buf'][1:]
+            return out
         if kind == 'trickle':
             if not state['buf']:
                 state['buf'] = wire.frame('WRTE', 0x7777, 0x7776, b'', length=1024 * 1024, check=1) + b'\x00' * 4096
@@ -116,6 +147,11 @@ def run_case(mode, op, j, kind, tt, rt, total, seed, healthy=None, net='mem'):
             o = sess.call('pull', '/f', buf, progress_callback=lambda *a: None, **kw)
             if o.kind == 'ret':
                 o.value = buf.getvalue()
+        elif op == 'push_dir':
+            # a directory: the library first runs `mkdir` over a shell stream of its own, then pushes every file
+            o = sess.call('push', push_dir_source(), '/qd', mtime=3, **kw)
+            if o.kind == 'ret':
+                o.value = sorted((k_, len(v_['data'])) for k_, v_ in dev.fs.files.items() if k_.startswith('/qd'))
         elif op == 'push':
             o = sess.call('push', io.BytesIO(scen.fast_pattern(2, 9000)), '/q', mtime=3, **kw)
             if o.kind == 'ret':
@@ -173,7 +209,7 @@ def body(ctx):
     grid_t = [None, -1, 0, 0.5, 2]
     grid_r = [-1, 0, 1, 3]
     grid_total = [None, -1, 0, 2]
-    kinds = ['raise', 'empty', 'trickle', 'foreign', 'unexpected']
+    kinds = ['raise', 'empty', 'trickle', 'foreign', 'unexpected', 'trickle_huge', 'huge_then_empty']
     traces, meta = [], []
     for mode in ('sync', 'async'):
         for op in OPS:
